@@ -18,7 +18,7 @@ theorem voteBP_ok {s s' : St} {a : Bytes} {h : Nat} {cs : List Bytes} (hr : vote
 theorem voteDAO_ok {s s' : St} {a : Bytes} {h : Nat} {id : String} {args : List Bytes}
     (hr : voteDAO s a h id args = (.ok, s')) :
     2 ≤ s.fv ∧ ∃ i, issueOfId id = some i ∧ args.length = 1 ∧
-      (∀ c ∈ args, ∃ n, parseDec c = some n ∧ validById i n = true) ∧ castVote s i a h args = (.ok, s') := by
+      (∀ c ∈ args, ∃ v, parseSigned c = some v ∧ validSigned i v = true) ∧ castVote s i a h args = (.ok, s') := by
   unfold voteDAO at hr
   by_cases h1 : s.fv < 2
   · rw [if_pos h1] at hr; simp at hr
@@ -34,7 +34,7 @@ theorem voteDAO_ok {s s' : St} {a : Bytes} {h : Nat} {id : String} {args : List 
         by_cases h3 : args.length > 1
         · rw [if_pos h3] at hr; simp at hr
         · rw [if_neg h3] at hr
-          by_cases h4 : args.any (fun c => (parseDec c).isNone) = true
+          by_cases h4 : args.any (fun c => (parseSigned c).isNone) = true
           · rw [if_pos h4] at hr; simp at hr
           · rw [if_neg h4] at hr
             by_cases h5 : args.any (daoArgBad i) = true
@@ -45,7 +45,7 @@ theorem voteDAO_ok {s s' : St} {a : Bytes} {h : Nat} {id : String} {args : List 
               simp only [List.any_eq_true, not_exists, not_and] at h5
               have := h5 c hc
               unfold daoArgBad at this
-              cases hp : parseDec c with
+              cases hp : parseSigned c with
               | none => rw [hp] at this; simp at this
               | some n => rw [hp] at this; exact ⟨n, rfl, by simpa using this⟩
 
